@@ -282,6 +282,18 @@ def fixed_cases():
                               default_tensor=np.array([0], np.int64))
         r = MODS[19].add(MODS[17].mul(a, MODS[17].const(np.int64(2))), b) if around else MODS[17].add(a, b)
         out.append(B.Case({"x": x}, {"out": r}, False, {"fixed": "ml-operator-at-two-versions" + ("+default-domain-mix" if around else "")}))
+    # an inlined model (built by spox) that uses a NON-default domain only inside a control-flow body: the surrounding model, which does
+    # not use that domain itself and is written against two ai.onnx versions, must import it
+    for vouter in (17, 19):
+        xi = B.argument(B.Tensor(np.float32, (3,)))
+        ci = B.argument(B.Tensor(np.bool_, ()))
+        (yi,) = MODS[17].if_(ci, then_branch=lambda: [ml3.binarizer(xi, threshold=0.5)], else_branch=lambda: [MODS[17].neg(xi)])
+        inner = B.build({"x": xi, "c": ci}, {"y": yi})
+        x = B.argument(B.Tensor(np.float32, (3,)))
+        c = B.argument(B.Tensor(np.bool_, ()))
+        r = B.inline(inner)(x=x, c=c)["y"]
+        out.append(B.Case({"x": x, "c": c}, {"out": MODS[vouter].add(MODS[17].mul(r, r), x)}, False,
+                          {"fixed": f"inlined-model-with-ml-operator-in-a-branch/outer-v{vouter}"}))
     from harness import c02
     for fc in c02.converted_twice_cases():
         fc.meta["fixed"] = fc.meta["names"].replace("corner:", "")
